@@ -44,6 +44,10 @@ inductive Os where
   | musllinux (major minor : Nat)
   | windows
   | macos (major minor : Nat)
+  /-- the OS classes whose releases cannot be ordered: `FreeBsd`/`NetBsd`/`OpenBsd`/`Dragonfly`/`Haiku`
+      (`cls` = the lower-case class name, `rel` = the release string) and `Generic` (`cls = "generic"`,
+      `rel` = the name) -/
+  | unordered (cls rel : String)
 deriving DecidableEq, Repr
 
 structure Platform where
@@ -87,6 +91,21 @@ def downFrom (lo : Nat) : (cnt : Nat) → (hi : Nat) → List Nat
 
 def rangeDown (hi lo : Nat) : List Nat := downFrom lo (hi - lo) hi
 
+def replaceChars (s : String) : String :=
+  String.ofList (s.toList.map fun c => if c == '.' || c == '-' then '_' else c)
+
+def lowerS (s : String) : String := String.ofList (s.toList.map Char.toLower)
+
+/-- `str(os_)` of the unordered classes: `OpenBsd` has no `__str__` (the class name alone), `Generic` prints
+    its lower-cased name -/
+def unorderedStr (cls rel : String) : String :=
+  if cls == "generic" then lowerS rel else if cls == "openbsd" then "openbsd" else s!"{cls}_{rel}"
+
+/-- the single tag of a BSD / Haiku / generic platform -/
+def unorderedTag (cls rel : String) (arch : Arch) : String :=
+  if cls == "generic" then s!"{lowerS rel}_{arch.str}"
+  else s!"{lowerS (unorderedStr cls rel)}_{replaceChars rel}_{arch.str}"
+
 /-- `Platform.compatible_tags` (platform.py:182-276); `none` = `PlatformError` -/
 def compatibleTags (p : Platform) : Option (List PTag) :=
   match p.os with
@@ -117,6 +136,7 @@ def compatibleTags (p : Platform) : Option (List PTag) :=
     | .x86_64 => some [.win "win_amd64"]
     | .aarch64 => some [.win "win_arm64"]
     | _ => none
+  | .unordered cls rel => some [.win (unorderedTag cls rel p.arch)]
 
 /-- `Platform.__str__` -/
 def Platform.str (p : Platform) : String :=
@@ -125,6 +145,7 @@ def Platform.str (p : Platform) : String :=
     | .musllinux a b => s!"musllinux_{a}_{b}"
     | .windows => "windows"
     | .macos a b => s!"macos_{a}_{b}"
+    | .unordered cls rel => unorderedStr cls rel
   match p.os, p.arch with
   | .windows, .x86_64 => "windows_amd64"
   | .macos _ _, .aarch64 => s!"{osStr}_arm64"
@@ -288,11 +309,12 @@ def Os.sameClass : Os → Os → Bool
   | .musllinux _ _, .musllinux _ _ => true
   | .windows, .windows => true
   | .macos _ _, .macos _ _ => true
+  | .unordered c _, .unordered d _ => c == d
   | _, _ => false
 
 def Os.majorMinor? : Os → Option (Nat × Nat)
   | .manylinux a b | .musllinux a b | .macos a b => some (a, b)
-  | .windows => none
+  | .windows | .unordered _ _ => none
 
 /-- dataclass `__eq__` of `EnvSpec` -/
 def EnvSpec.beq (a b : EnvSpec) : Bool :=
@@ -312,7 +334,7 @@ def platCompare (p q : Platform) : EnvCompat :=
     match p.os.majorMinor?, q.os.majorMinor? with
     | some (a1, a2), some (b1, b2) =>
       if a1 < b1 || (a1 == b1 && a2 ≤ b2) then .lowerOrEqual else .higher
-    | _, _ => .lowerOrEqual
+    | _, _ => if p.os = q.os then .lowerOrEqual else .incompatible   -- releases that cannot be ordered
 
 /-- `EnvSpec.compare` (tags.py:273-299) -/
 def compare (a b : EnvSpec) : EnvCompat :=
@@ -328,7 +350,8 @@ def compare (a b : EnvSpec) : EnvCompat :=
 
 inductive PlatErr where
   | valueError        -- `Arch.parse` / tuple unpacking `ValueError` escapes
-  | unmodelled        -- generic / BSD / illumos families: outside the claim
+  | typeError         -- `Illumos(release)`: the dataclass needs two arguments
+  | platformError     -- a generic name with an unknown architecture
 deriving DecidableEq, Repr
 
 /-- leading digits, then `_` -/
@@ -371,6 +394,24 @@ def familyRe (l : List Char) : Option (Except PlatErr Platform) :=
       | some r => parseMajorMinor .musllinux r
       | none => none
 
+/-- the final `else` of `Platform.parse`: BSD families by name, anything else a `Generic` OS -/
+def parseOther (l : List Char) : Except PlatErr Platform :=
+  let (os, r) := l.span (· != '_')
+  match r with
+  | '_' :: rest =>
+    let osS := String.ofList os
+    if osS == "illumos" then .error .typeError
+    else if osS == "freebsd" || osS == "netbsd" || osS == "openbsd" || osS == "dragonfly" || osS == "haiku" then
+      let (rel, r2) := rest.span (· != '_')
+      match Arch.parse? (String.ofList (r2.drop 1)) with
+      | some a => .ok ⟨.unordered osS (String.ofList rel), a⟩
+      | none => .error .valueError
+    else
+      match Arch.parse? (String.ofList rest) with
+      | some a => .ok ⟨.unordered "generic" osS, a⟩
+      | none => .error .platformError
+  | _ => .error .valueError       -- `os_, arch = platform.split("_", 1)` cannot unpack
+
 /-- `Platform.parse` (platform.py:41-92) -/
 def parsePlatform (s : String) : Except PlatErr Platform :=
   if s == "linux" then .ok ⟨.manylinux 2 17, .x86_64⟩
@@ -387,7 +428,7 @@ def parsePlatform (s : String) : Except PlatErr Platform :=
       else
         match familyRe l with
         | some r => r
-        | none => .error .unmodelled
+        | none => parseOther l
 
 /-! ### wheel file names -/
 
